@@ -35,8 +35,9 @@ type Case struct {
 	Chunked     bool        `json:"chunked"`
 	Pieces      []int       `json:"pieces,omitempty"`
 	ReqTrailers [][2]string `json:"req_trailers,omitempty"`
-	PadLens     []int       `json:"pad_lens,omitempty"`    // raw HTTP/2: padding of the DATA frames (cyclic, -1 = unpadded)
-	Unannounced bool        `json:"unannounced,omitempty"` // raw HTTP/2: request trailers without a "trailer" header
+	PadLens     []int       `json:"pad_lens,omitempty"`     // raw HTTP/2: padding of the DATA frames (cyclic, -1 = unpadded)
+	EmptyFrames int         `json:"empty_frames,omitempty"` // raw HTTP/2: empty DATA frames between the pieces of the body (up to this many)
+	Unannounced bool        `json:"unannounced,omitempty"`  // raw HTTP/2: request trailers without a "trailer" header
 
 	Status       int         `json:"status"`
 	RespHeaders  [][2]string `json:"resp_headers"`
@@ -179,6 +180,11 @@ func genCase(t *rapid.T, proto string, i int, thorough bool) Case {
 			if c.BodyLen > 500000 {
 				c.BodyLen = 200000 // the raw peer does not wait for WINDOW_UPDATEs (server window: 1 MiB)
 			}
+			if rapid.IntRange(0, 5).Draw(t, "emptyframes") == 0 && c.BodyLen >= 16383 {
+				// a body sent in 100-octet pieces with an empty DATA frame behind each: 160..700 empty frames on one stream
+				c.Pieces, c.EmptyFrames = []int{100}, 1000
+				c.BodyLen = rapid.SampledFrom([]int{16384, 70000}).Draw(t, "eflen")
+			}
 			if rapid.Bool().Draw(t, "padded") {
 				c.PadLens = rapid.SliceOfN(rapid.SampledFrom([]int{-1, 0, 1, 17, 255}), 1, 3).Draw(t, "padlens")
 			}
@@ -191,7 +197,7 @@ func genCase(t *rapid.T, proto string, i int, thorough bool) Case {
 			}
 		}
 	}
-	c.Status = rapid.SampledFrom([]int{200, 200, 200, 201, 202, 204, 301, 304, 400, 404, 418, 500, 503}).Draw(t, "status")
+	c.Status = rapid.SampledFrom([]int{200, 200, 200, 201, 202, 204, 301, 304, 400, 404, 418, 500, 503, 599, 600, 799, 999}).Draw(t, "status")
 	c.RespHeaders = genHeaders(t, "rh", rapid.IntRange(0, 8).Draw(t, "nrh"), true)
 	if c.Status != 204 && c.Status != 304 && c.Method != "HEAD" {
 		sizes := []int{0, 1, 100, 16384, 65535, 65536, 65537, 200000}
@@ -478,7 +484,7 @@ func exec(t *testing.T, s Script) *vstat.Violation {
 			for i, cs := range s.Cases {
 				sid := uint32(1 + 2*i)
 				rs := rig.ReqSpec{Method: cs.Method, Path: target(cs), Authority: cs.Authority, Headers: cs.Headers, Body: body(cs.BodyLen, cs.BodySeed), Pieces: cs.Pieces, Trailers: cs.ReqTrailers,
-					PadLens: cs.PadLens, UnannouncedTrail: cs.Unannounced, DeclareLength: !cs.Chunked && cs.BodyLen > 0}
+					PadLens: cs.PadLens, EmptyFrames: cs.EmptyFrames, UnannouncedTrail: cs.Unannounced, DeclareLength: !cs.Chunked && cs.BodyLen > 0}
 				if err := peer.SendH2(sid, rs, nil); err != nil {
 					resps[i].err = "h2 write: " + err.Error()
 					break
@@ -708,6 +714,12 @@ func exec(t *testing.T, s Script) *vstat.Violation {
 		}
 		if c.Unannounced {
 			classes = append(classes, "unannounced-request-trailers")
+		}
+		if c.EmptyFrames > 0 {
+			classes = append(classes, "hundreds-of-empty-data-frames-inside-one-upload")
+		}
+		if c.Status >= 600 {
+			classes = append(classes, "status>=600:"+s.Proto)
 		}
 		if c.Chunked {
 			classes = append(classes, "chunked-or-unknown-length")
